@@ -1,0 +1,37 @@
+//go:build verif && amd64 && gc && !purego
+
+package blake2s
+
+import "golang.org/x/sys/cpu"
+
+// VerifSetPath forces the hashBlocks dispatch level for the /verif harness (properties C05-C07):
+// "sse4", "ssse3", "sse2", "generic" (all flags off) or "auto" (the init-time choice).
+// It reports false when the CPU lacks the requested level (nothing is changed then).
+// The flags are package variables: callers must not hash concurrently while switching.
+// (The flags only exist in the amd64 assembly build, hence the build constraint.)
+func VerifSetPath(p string) bool {
+	switch p {
+	case "auto":
+		useSSE4, useSSSE3, useSSE2 = cpu.X86.HasSSE41, cpu.X86.HasSSSE3, cpu.X86.HasSSE2
+	case "sse4":
+		if !cpu.X86.HasSSE41 {
+			return false
+		}
+		useSSE4, useSSSE3, useSSE2 = true, false, false
+	case "ssse3":
+		if !cpu.X86.HasSSSE3 {
+			return false
+		}
+		useSSE4, useSSSE3, useSSE2 = false, true, false
+	case "sse2":
+		if !cpu.X86.HasSSE2 {
+			return false
+		}
+		useSSE4, useSSSE3, useSSE2 = false, false, true
+	case "generic":
+		useSSE4, useSSSE3, useSSE2 = false, false, false
+	default:
+		return false
+	}
+	return true
+}
